@@ -764,6 +764,10 @@ func (e *Enc) encodeErrorsAs(st *bstate, call *ssa.CallCommon, pos token.Pos) Va
 	pred := app(e.errAsPred(pt.Elem()), errT)
 	nv := e.freshVal(st, pt.Elem(), "erras.target").T
 	e.assume(st.reach, sImp(pred, sEq(nv, app(e.errAsVal(pt.Elem()), errT))))
+	if e.W.sortOf(pt.Elem()) == "Iface" {
+		// a target of interface type receives the matching error of the chain, which is not nil
+		e.assume(st.reach, sImp(pred, sNot(sEq(nv, "nil!iface"))))
+	}
 	if tv.Loc != nil {
 		e.storeLoc(st, tv.Loc, nv)
 	} else if e.W.structInfo(pt.Elem()) != nil {
